@@ -68,4 +68,15 @@ inductive GetterShape
   | other (text : String)
 deriving DecidableEq, Repr, Inhabited
 
+/-- how a virtual method of an adaptor node (`MockCFunctionComparatorNode`, `MockCFunctionCopierNode`) calls the C
+    function it wraps -/
+structure AdaptorCall where
+  method : String      -- `isEqual`, `valueToString`, `copy`
+  callee : String      -- the stored C function pointer
+  /-- for every argument of the C function, in order: the position of the method's parameter that is passed
+      (99 = not a parameter) -/
+  order  : List Nat
+  wrap   : String      -- what happens to the result: `!=0`, `SimpleString`, or nothing
+deriving DecidableEq, Repr, Inhabited
+
 end MockC
